@@ -7,6 +7,7 @@ V = os.path.dirname(os.path.dirname(os.path.abspath(__file__)))
 CLAIMS = {
  # id: (category, text, note, technique, design_ref)
  "C01": ("proof",
+         "[session 3c] Also: Verus proof on the real BreakpointRegistry::add_and_enable / get_enabled / add_uninit (vstd HashMap): the new breakpoint is stored under its address after the one it replaces was disarmed and it was armed itself, nothing else changes, an error leaves the table unchanged. "
          "[session 3b] Also: Verus proof on the real continue_execution (extracted whole) that its dispatch table holds at every exit of the event loop: it leaves the loop with a breakpoint event only for a user breakpoint after exactly one on_breakpoint hook for that pc, or for a temporary breakpoint without a hook; with exit/signal/watchpoint events only after their hook; and it goes on silently only for internal breakpoints (entry point, linker map, transparent) or a signal stop of a finished debuggee. "
          "[session 3] Also: Verus proof that the real Debugger::step_over_breakpoint re-arms the breakpoint it stepped off on every successful return (local ghost flag, assert before every Ok exit), and a Kani proof that the TRAP_BRKPT arm of apply_new_status attributes the stop to the thread that trapped, at the rewound pc, marks it stopped and starts one group stop on its behalf. "
          "Kani/CBMC proofs (complete over all words, addresses and register files) of the two primitives every breakpoint stop is "
@@ -39,6 +40,7 @@ CLAIMS = {
          "(std sort in the parser); PlaceDescriptor.file lookup dropped; prolog_start_place (gimli) external.",
          "Verus contracts on mechanically extracted real functions", "2/C04"),
  "C05": ("proof",
+         "[session 3c] Also: Verus proof that restore_registers_at_frame walks exactly frame_num frames up the chain before it copies the registers. "
          "[session 3b] Also: Verus proofs that the CFI lookups of UnwindContext::new (.eh_frame and the .debug_frame fallback) are handed the file-relative pc (address-space typing), and that the register+offset CFA rule of evaluate_cfa computes register value + signed offset. "
          "Kani/CBMC proofs, complete over all register values, of the register carriage used by the unwinder: the DWARF register "
          "numbers equal the psABI table, DwarfRegisterMap::from(RegisterMap) stores every register under its DWARF number and nothing "
@@ -75,6 +77,7 @@ CLAIMS = {
          "recorded preconditions: read_n <= isize::MAX, addr <= i64::MAX (DAP path), len <= cap for the deque ring.",
          "Verus implicit obligations on mechanically extracted real functions", "2/C08"),
  "C13": ("proof",
+         "[session 3c] Also: record_breakpoint_hit counts every arrival once (saturating) and judges the new count with the record's own options. "
          "[session 3b] Also: Verus proofs of the replace protocol of handle_set_breakpoints / set_instruction / set_function breakpoints (the set that is removed from the debugger is the one stored under the same key / of the same kind; other kinds untouched; loop bodies outlined), of the stop filter loop of emit_stop_reason (the stop that is announced passed the exception filter and was not skipped; the debuggee is resumed once per filtered stop), of literal_truthy and of the evaluation order of evaluate_condition_expression. "
          "[session 3] Also: Verus proofs that the three record predicates of with_breakpoint_record_mut match a record iff the stop address is ANY of its addresses (first match), that should_skip_breakpoint decides exactly as the property says (condition false => skip silently; hit condition not met => skip; logpoint => log once and skip; otherwise stop) and that BreakpointRegistry::remove_by_addr removes whatever is registered under the address (installed or not) and nothing else. "
          "Kani/CBMC proof over all (N, hits) pairs that the real HitCondition::matches is the arithmetic relation its variant names "
@@ -114,6 +117,7 @@ CLAIMS = {
          "psABI 3.2.3 register order typed into the harness as oracle.",
          "Kani proofs on the real crate, full-domain symbolic values", "2/C16"),
  "C18": ("proof",
+         "[session 3c] Also: find_by_addr / find_mapping_offset return the debug info / load offset stored under the path of the region that contains the address. "
          "[session 3b] Also: Verus proof on the per-object body of update_mappings: the load offset of an object is the lowest start of its maps lines and its region ends at start+size of the highest one, both recorded under the object's path. "
          "[session 3] Also: Verus proofs that UninitBreakpoint::try_into_brkpt resolves a file-less address template against the object that contains the address (so a run-time address maps back to itself: into_global then relocate_to_segment), and that refresh_deferred keeps a deferred request exactly as long as it has not been installed. "
          "Kani/CBMC proof over all values that GlobalAddress::relocate and RelocatedAddress::remove_vas_region_offset are mutually "
@@ -141,6 +145,7 @@ CLAIMS = {
          "errors of the two clean-up calls are ignored by the code and not modelled.",
          "Verus modular proof with ghost protocol state on the extracted real function", "8.4/C11"),
  "C12": ("proof",
+         "[session 3c] Also the handlers restart, pause, terminate, disconnect, step_in, step_out: at most one response, exactly one when they return Ok. "
          "[session 3] Also: Verus proofs on the real send_response_raw / send_event_raw (sequence number = shared counter, request_seq and command of the request, counter advanced once) and on the dispatch loop run: for every request read exactly one response is written (against the dispatch contract 'a handler answers at most once and may fail afterwards', itself proved for handle_continue) -- this unit found the double response repaired by fix de3da29. "
          "Verus proof (any batch of queued events, any earlier history) of the real DebugSession::drain_events against a ghost record "
          "of the events put on the wire: nothing is sent once `terminated` is latched; `terminated` is sent at most once and is the "
@@ -175,6 +180,7 @@ CLAIMS = {
          "filter/filter_map/collect chain (closure bodies are spliced verbatim into a hand-written composing loop); signature substitution for impl IntoIterator/AsRef<str> parameters.",
          "Verus data-structure invariant + abstract view on the mechanically extracted real functions", "8.8/C17"),
  "C09": ("proof",
+         "[session 3c] Also: a clone event changes the stop mark of the parent only; resume() re-stops the process before it reports a queued signal; a completed instruction step is reported only when the pc moved. "
          "Verus proofs on the real tracer code against a ghost thread table. (1) Tracer::group_stop_interrupt, extracted whole: when it "
          "returns Ok (and was not re-entered) EVERY thread the tracer controls is marked stopped -- threads of the snapshot are interrupted "
          "and marked or have gone, threads that appear meanwhile are added stopped -- and the re-entrancy guard is released. (2) The "
@@ -188,6 +194,7 @@ CLAIMS = {
          "ptrace event codes typed from ptrace(2); the two for loops rewritten to index loops; termination of the wait loop not claimed.",
          "Verus contracts on mechanically spliced match arms of the real function", "8.11/C09"),
  "C03": ("proof",
+         "[session 3c] Also: Tracer::single_step reports a completed step only when the program counter differs from the one at entry (rep-prefixed instructions are stepped again). "
          "[session 3b] Also: Verus proofs that a temporary step breakpoint stops only the thread that owns it (other threads pass over it silently) and that stepi / step_out restore the real frame before stepping. "
          "Verus proofs on the real step code: single_step_instruction executes exactly one instruction of the focused thread (through "
          "step_over_breakpoint when it stands on a breakpoint, otherwise Tracer::single_step of that thread; ghost step history), and the "
